@@ -141,6 +141,30 @@ theorem isDir_parent_of_node {fs : FS} (hwf : WFo fs) {k : Key} (hk : ¬ isPcKey
     rw [← List.dropLast_eq_take] at this
     simp [this]
 
+/-- on a tree whose nodes have directories as parents: where the directory of `k` exists, nothing on the way to `k`
+is a regular file -/
+theorem fileOnPath_of_isDir {fs : FS} (hwf : WFo fs) {k : Key} (hk : ¬ isPcKey k)
+    (hd : fs.isDir k.dropLast = true) : fs.fileOnPath k = false := by
+  rw [fileOnPath_false_iff]
+  intro q hs hq hf
+  have hdl : k.dropLast ≠ [] := by
+    intro e
+    have h1 := hs.1
+    have := congrArg List.length e
+    rw [List.length_dropLast] at this
+    simp only [List.length_nil] at this
+    have : q.length = 0 := by omega
+    exact hq (List.length_eq_zero_iff.mp this)
+  have hdir : fs.lookup k.dropLast = some .dir := by
+    unfold FS.isDir at hd
+    simpa [hdl] using hd
+  rcases spre_dropLast_or_eq hs with e | hs'
+  · rw [e, hdir] at hf; exact hf
+  · have hq0 : 0 < q.length := Nat.pos_of_ne_zero (fun e => hq (List.length_eq_zero_iff.mp e))
+    have := hwf k.dropLast (not_isPcKey_dropLast hk) _ hdir q.length hq0 hs'.1
+    rw [hs'.2, ] at this
+    rw [this] at hf; exact hf
+
 /-- one round of the loop of `saveRejFiles`, on a tree whose nodes have directories as parents: if the directory of
 the reject file does not exist nothing changes (the unlink finds nothing: a file there would have its directory),
 otherwise the tree is `putPlain` -/
@@ -150,9 +174,20 @@ theorem saveRejFiles_step {w w' : World} {name content : Bytes} {rest : List (By
     ∃ w1, saveRejFiles w1 rest = .ok w' ∧
       ((w.fs.isDir k.dropLast = false ∧ w1.fs = w.fs) ∨
        (w.fs.isDir k.dropLast = true ∧ putPlain w.fs k content = .ok w1.fs)) := by
-  unfold saveRejFiles at h
+  rw [saveRejFiles_cons] at h
   rw [hk] at h
   simp only at h
+  split at h
+  · -- something on the way to `k` is a regular file: the reject is bypassed, and the directory does not exist
+    rename_i hfp
+    split at h
+    · cases h
+    · split at h
+      · cases h
+      · refine ⟨_, h, .inl ⟨?_, rfl⟩⟩
+        cases hd : w.fs.isDir k.dropLast with
+        | false => rfl
+        | true => rw [fileOnPath_of_isDir hwf hpc hd] at hfp; cases hfp
   have hcont : ∀ w0 : World, w0.fs = unlinked w.fs k → (w0.fs = w.fs ∨ w.fs.isDir k.dropLast = true) →
       (∀ q, w0.fs.isDir q = w.fs.isDir q) →
       (match w0.op (.createFile k) with
@@ -292,7 +327,11 @@ theorem rejects_sim : ∀ (rejs : List (Bytes × Bytes)), RejsOut rejs → ∀ (
       obtain ⟨w1, hs1, hcase⟩ := saveRejFiles_step hk hk' hi.wf hs
       have hd : a.isDir k.dropLast = w.fs.isDir k.dropLast := hab.isDir_eq (not_isPcKey_dropLast hk')
       split at hp
-      · cases hp
+      · rename_i hfp
+        rcases hcase with ⟨hnd, hfs⟩ | ⟨hdir, hpl⟩
+        · exact ih hrest a a' w1 w' S (by rw [hfs]; exact hab) (by rw [hfs]; exact hi) hp hs1
+        · rw [hab.fileOnPath_eq hk', fileOnPath_of_isDir hi.wf hk' hdir] at hfp
+          cases hfp
       · rcases hcase with ⟨hnd, hfs⟩ | ⟨hdir, hpl⟩
         · rw [hd, hnd] at hp
           simp only [Bool.not_false, if_true] at hp
